@@ -287,6 +287,9 @@ def run(ctx) -> None:
     for nid in sorted(upstream):
         n = ucfg.nodes[nid]
         mentions = n.ast is not None and any(isinstance(x, ast.Name) and x.id == "dry" and isinstance(x.ctx, ast.Load) for x in ast.walk(n.ast))
+        effs = set(neff.get(nid, {}))
+        if n.kind == "stmt" and isinstance(n.ast, ast.Expr) and effs and effs <= {"LOG", "ECHO"} and not mentions:
+            continue          # a message that is printed only for dry (or only for real) runs decides nothing
         r = upc.reach(nid)
         dep = "dry" in r.atoms and not r.restrict("dry", True).equiv(r.restrict("dry", False))
         ctx.check("R5", not mentions and not dep, f"update L{n.lineno}: `{n.text()[:50]}` is the same for dry and real runs",
